@@ -6,22 +6,24 @@
 EXTENDS FedRequest, Json
 
 MethodsAll  == {"GET", "PUT", "POST", "DELETE"}
-URIsQuick   == {"plain", "query", "escape"}
+URIsQuick   == {"plain", "query", "escape", "long"}
 URIsAll     == {"plain", "query", "escape", "emptyq", "dslash", "unicode", "long"}
 ShapesO     == {"dns", "port", "ipv4", "ipv6"} \cup InvalidOrigins
-ShapesD     == {"dns", "port", "ipv4", "ipv6", "invalid"}
+ShapesD     == {"dns", "port", "ipv4", "ipv6", "invalid", "origin"}
 SpellingsAll == {"lower", "mixed"}
-BodiesAll   == {"none", "obj", "arr", "nonutf8"}
-StylesAll   == {"canon", "reorder", "spaces", "bare", "empties"}
-KeyValsAll  == {"valid", "validfar", "expfuture", "lapsed", "expired", "expboth", "unknown", "wrongkey"}
+BodiesAll   == {"none", "obj", "arr", "nonutf8", "emptyobj", "null"}
+EntriesAll  == {"direct", "client"}
+StylesAll   == {"canon", "reorder", "spaces", "bare", "empties", "extra"}
+KeyValsAll  == {"valid", "validfar", "expfuture", "fetched", "refreshed",
+                "lapsed", "expired", "expboth", "unknown", "wrongkey", "fetcherr", "dberror"}
 NKeysAll    == {1, 2}
 KnownsAll   == {"both", "first", "second", "neither"}
-CfgsAll     == {"single", "multi"}
+CfgsAll     == {"single", "singlefn", "multi", "any", "nobody"}
 DestOwnsAll == {"P", "S", "F"}
 
 
 Emit_ == Done =>
-    PrintT(ToJson([m |-> req.m, u |-> req.u, os |-> req.os, osp |-> req.osp, ds |-> req.ds, dsp |-> req.dsp, down |-> req.down, body |-> req.body,
+    PrintT(ToJson([m |-> req.m, u |-> req.u, os |-> req.os, osp |-> req.osp, ds |-> req.ds, dsp |-> req.dsp, down |-> req.down, body |-> req.body, entry |-> req.entry, open |-> (applied \cap OpenKinds # {}),
                    style |-> wire.style, cfg |-> rcv.cfg, kv |-> rcv.kv, nk |-> signed.nk, known |-> rcv.known,
                    tampers |-> applied,
                    accept |-> out.accept,
